@@ -84,6 +84,7 @@ type RunCfg struct {
 	maxDepth     int
 	useSummary   map[string]bool // functions whose contract is used instead of the body
 	bytesLayer   bool            // abstract byte-string values and crypto function symbols (bytes.go)
+	timeoutMs    int             // per-obligation solver budget (0: the tier's default)
 }
 
 func newRunCfg() *RunCfg {
@@ -143,6 +144,7 @@ type Exec struct {
 	cutsTried     int
 	bcatNames     map[int]*Term
 	lens          map[int]*Term
+	rangeMapType  map[int]*types.Map
 	extOrigin     map[int]bool
 	cutsProved    int
 }
@@ -152,6 +154,7 @@ func newExec(P *Program, cfg *RunCfg) *Exec {
 		names: map[string]int{}, ghost: map[string]Value{}, inFuncs: map[string]bool{}, summariesUsed: map[string]bool{}}
 	ex.mem = newMem(ex)
 	ex.ctrBase = Int(0)
+	ex.rangeMapType = map[int]*types.Map{}
 	if cfg != nil && cfg.bytesLayer {
 		ex.installBytesLayer()
 	}
@@ -839,8 +842,8 @@ func (ex *Exec) finishLoop(f *Frame, act *loopAct) {
 		alts = append(alts, And(act.varGoals[i]...))
 		names = append(names, vc.name)
 	}
-	if ex.cfg.noVariant[act.key] {
-		return
+	if ex.cfg.noVariant[act.key] || loopHasMapNext(act.info) {
+		return // (range over a map terminates by the language definition)
 	}
 	o := &Obligation{Name: act.key + "#variant", Class: "variant", Fn: fnName(f.fn), NHyps: len(ex.hyps), Alts: alts}
 	o.Raw = "candidates: " + strings.Join(names, ", ")
@@ -1191,20 +1194,34 @@ func (ex *Exec) execInstr(f *Frame, b *ssa.BasicBlock, ins ssa.Instruction) {
 		ex.ghost[fmt.Sprintf("closure:%d", tag.id)] = bs
 		f.vals[x] = FuncV{Tag: tag}
 	case *ssa.Range:
-		f.vals[x] = ex.val(f, x.X)
-		ex.unsupported("range over map/string in " + fnName(f.fn))
-	case *ssa.Next:
-		ex.unsupported("next (map iteration) in " + fnName(f.fn))
-		tt := x.Type().(*types.Tuple)
-		tv := TupleV{Fresh("next.ok", SBool, nil, nil)}
-		for i := 1; i < tt.Len(); i++ {
-			if t := tt.At(i).Type(); t != nil && t.String() != "invalid type" {
-				tv = append(tv, ex.freshValue(t, "next", true))
-			} else {
-				tv = append(tv, nil)
-			}
+		if _, ok := x.X.Type().Underlying().(*types.Map); !ok {
+			f.vals[x] = ex.val(f, x.X)
+			ex.unsupported("range over string in " + fnName(f.fn))
+			break
 		}
-		f.vals[x] = tv
+		// map iteration: an iterator object with a ghost set of visited keys
+		it := ex.newObj()
+		ex.gwrite("mapiter.map", f.cur, it, ex.val(f, x.X).(*Term))
+		f.vals[x] = it
+		ex.rangeMapType[it.id] = x.X.Type().Underlying().(*types.Map)
+	case *ssa.Next:
+		itv, _ := ex.val(f, x.Iter).(*Term)
+		mt := ex.rangeMapType[itvID(itv)]
+		if x.IsString || mt == nil {
+			ex.unsupported("next (string iteration) in " + fnName(f.fn))
+			tt := x.Type().(*types.Tuple)
+			tv := TupleV{Fresh("next.ok", SBool, nil, nil)}
+			for i := 1; i < tt.Len(); i++ {
+				if t := tt.At(i).Type(); t != nil && t.String() != "invalid type" {
+					tv = append(tv, ex.freshValue(t, "next", true))
+				} else {
+					tv = append(tv, nil)
+				}
+			}
+			f.vals[x] = tv
+			break
+		}
+		f.vals[x] = ex.mapNext(f, x, itv, mt)
 	default:
 		ex.unsupported(fmt.Sprintf("instruction %T in %s", ins, fnName(f.fn)))
 		if v, ok := ins.(ssa.Value); ok {
@@ -1770,8 +1787,10 @@ func (ex *Exec) builtin(f *Frame, name string, call *ssa.Call, args []Value) Val
 		case StrV:
 			return s.Len
 		case *Term: // map
-			ex.unsupported("len(map)")
-			return Fresh("maplen", SInt, bi(0), pow48)
+			// the number of entries of a map is not tracked: some non-negative number
+			// (the library uses it only as a capacity hint)
+			ex.usedModel("len(map): an unspecified non-negative number (only used as a capacity hint)")
+			return Fresh("maplen", SInt, bi(0), bi(1<<31))
 		}
 	case "cap":
 		if s, ok := args[0].(SliceV); ok {
@@ -2282,4 +2301,82 @@ func (ex *Exec) unrollLoop(f *Frame, lp *loopInfo, k int, entry *Term) {
 type scopeParam struct {
 	ref    *Term
 	prefix string
+}
+
+func itvID(t *Term) int {
+	if t == nil {
+		return -1
+	}
+	return t.id
+}
+
+// mapNext models one step of `for k, v := range m`: the keys are enumerated in an
+// arbitrary order, each present key exactly once.  ok => the key is present and not
+// yet visited (it becomes visited); !ok => every present key has been visited (stated
+// for all keys, and instantiated for the keys the execution has stored into maps of
+// this type, which is what bounded enumerations need).
+func (ex *Exec) mapNext(f *Frame, x *ssa.Next, it *Term, mt *types.Map) Value {
+	reach := f.cur
+	m := ex.gread("mapiter.map", it)
+	base := mapBase(mt)
+	pk := ex.mem.kind(base+"#present", SBool, nil, nil, false)
+	vk := ex.mem.kind("ghost:mapiter.visited", SBool, nil, nil, false)
+	kk, isInt := intKindOf(mt.Key())
+	var key *Term
+	if isInt {
+		key = Fresh("range.key", SInt, kk.lo(), kk.hi())
+	} else {
+		key = Fresh("range.key", SInt, nil, nil)
+	}
+	ok := Fresh("range.ok", SBool, nil, nil)
+	present := func(k *Term) *Term { return And(Ne(m, Int(0)), ex.mem.Read(pk, m, k, -1)) }
+	visited := func(k *Term) *Term { return ex.mem.Read(vk, it, k, -1) }
+	ex.assume(reach, Implies(ok, And(present(key), Not(visited(key)))))
+	// exhaustion, for every key ...
+	q := BoundVar("k", nil, nil)
+	ex.assume(reach, Implies(Not(ok), ForallNoShift(Implies(present(q), visited(q)))))
+	// ... and explicitly for the keys stored so far
+	seen := map[int]bool{}
+	for i := range pk.log {
+		e := &pk.log[i]
+		if e.typ == eStore && e.idx != nil && !seen[e.idx.id] && !containsBound(e.idx) {
+			seen[e.idx.id] = true
+			ex.assume(reach, Implies(Not(ok), Implies(present(e.idx), visited(e.idx))))
+		}
+	}
+	ex.mem.Store(vk, And(reach, ok), it, key, True())
+	tt := x.Type().(*types.Tuple)
+	tv := TupleV{ok}
+	// key
+	if t := tt.At(1).Type(); t != nil && t.String() != "invalid type" {
+		if isString(mt.Key()) {
+			ex.unsupported("range over a map with string keys in " + fnName(f.fn))
+			tv = append(tv, ex.freshValue(t, "next", true))
+		} else {
+			tv = append(tv, Value(key))
+		}
+	} else {
+		tv = append(tv, nil)
+	}
+	// value
+	if t := tt.At(2).Type(); t != nil && t.String() != "invalid type" {
+		tv = append(tv, ex.loadAt(base, m, key, mt.Elem(), -1))
+	} else {
+		tv = append(tv, nil)
+	}
+	return tv
+}
+
+func loopHasMapNext(lp *loopInfo) bool {
+	if lp == nil {
+		return false
+	}
+	for b := range lp.body {
+		for _, ins := range b.Instrs {
+			if n, ok := ins.(*ssa.Next); ok && !n.IsString {
+				return true
+			}
+		}
+	}
+	return false
 }
